@@ -118,6 +118,10 @@ def gen(rng, tier, index):
     direction, cls, extra = VARIANTS[v]
     X = _matrix(rng, n, m, kind)
     spec = {"dir": direction, "cls": cls, "kw": dict(extra)}
+    for _ in range(20):  # the enumerated block must not lose cases to the conditioning guard
+        if not exhaustive or sel.pcov_spectrum_guard(spec, X):
+            break
+        X = _matrix(rng, n, m, kind)
     kw = spec["kw"]
     N = X.shape[sel.axis_of(spec)]
     y = gens.target(rng, X, "linear", 1) if (sel.needs_y(spec) or rng.random() < 0.3) else None
